@@ -155,7 +155,15 @@ func harnessC08(nMembers, opFixed int, withFault bool) {
 			t.handleMeta(&msg)
 		case verifOp8SetTags:
 			msg := base
-			msg.Set = &MsgClientSet{Id: "r1", Topic: t.name, MsgSetQuery: MsgSetQuery{Tags: []string{"alpha", "gamma"}}}
+			// a tidy list, or one the server has to clean up: duplicates by case and blanks, a tag that is too short
+			tagList := []string{"alpha", "gamma"}
+			switch verifChoose("tagList", 3) {
+			case 1:
+				tagList = []string{"gamma", "Alpha", " alpha ", "x", "gamma"}
+			case 2:
+				tagList = []string{"beta", "beta"}
+			}
+			msg.Set = &MsgClientSet{Id: "r1", Topic: t.name, MsgSetQuery: MsgSetQuery{Tags: tagList}}
 			msg.MetaWhat = constMsgMetaTags
 			globals.maxTagCount = 8
 			t.handleMeta(&msg)
